@@ -1071,7 +1071,7 @@ class Unit:
                             if lb and lb not in labels: labels.append(lb)
             self.emit(bl, owner_name, aglabel if aghost else None, "ghost" if aghost else "body", src="%s:%d" % (rel, src_line + q))
         self.emit("}", owner_name, None, "glue")
-        self.functions.append(dict(path=name, file=rel, line=src_line, external=False, labels=labels, mutself=False))
+        self.functions.append(dict(path=name, file=rel, line=src_line, external=False, labels=labels, mutself=False, body=new_expr))
         self.diffs[name] = "".join(difflib.unified_diff(expr.splitlines(True), new_expr.splitlines(True),
                                                         "%s:arm Request::%s (source)" % (rel, variant), "extracted", n=0))
         self.counts.add("items.arm")
@@ -1403,7 +1403,7 @@ class Unit:
         if impl_open:
             self.emit("}", owner_name, None, "glue")
         self.functions.append(dict(path=path, file=rel, line=src_line, external=external, labels=labels,
-                                   mutself=mutself))
+                                   mutself=mutself, body=(new_body if not external else "")))
         if not external:
             nb = re.sub(r"(?s)/\*@ghost-begin \d+\*/.*?/\*@ghost-end\*/\n?", "", new_body)
             self.diffs[path] = "".join(difflib.unified_diff(
@@ -1504,6 +1504,18 @@ def _parse_rewrite(ln, path, i):
 def generate(vc_path, prelude_path, out_path):
     u = Unit(vc_path)
     body = u.build()
+    # call graph among the functions under contract (modular proofs lean on the callee's contract): which contracted functions each body mentions as a call
+    short = {}
+    for f in u.functions:
+        short.setdefault(f["path"].split("::")[-1].split("@")[-1], []).append(f["path"])
+    for f in u.functions:
+        b = re.sub(r"(?s)/\*@ghost-begin \d+\*/.*?/\*@ghost-end\*/", "", f.pop("body", "") or "")
+        calls = set()
+        for nm, paths in short.items():
+            if re.search(r"(?<![A-Za-z0-9_])%s\s*(::<[^>]*>)?\s*\(" % re.escape(nm), b):
+                for pth in paths:
+                    if pth != f["path"]: calls.add(pth)
+        f["calls"] = sorted(calls)
     prelude = open(prelude_path, encoding="utf-8").read()
     n_pre = prelude.count("\n")
     text = prelude + body
